@@ -713,6 +713,23 @@ func TestC12(t *testing.T) {
 		}
 		return c
 	}, Exec: execMutant, HangLimit: 120 * time.Second}, r.N(2000, 20000))
+	// long documents of distinct literals (kinset_test.go), valid or with an illegal character in front of one item:
+	// parsed several times, every time a value or the diagnostic that names that character where it stands
+	core.Rapid(r, core.Check[longDocCase]{Name: "long-documents", Gen: genLongDoc(true), Exec: func(c longDocCase, _ core.Source) (res core.Result) {
+		d, _ := c.doc()
+		for round := 0; round < 4 && res.Violation == nil; round++ {
+			res = execInput(d.Text)
+		}
+		if res.Violation == nil && c.Break > 0 {
+			o := parseChecked(d.Text)
+			if o.Kind != "diagnostic" {
+				res.Violation = core.Violate("C12/long/accepted-an-illegal-character", "a document of %d %s items with '$' in front of item %d was not refused with a diagnostic (outcome %s)", c.N, c.Kind, c.Break, o.Kind)
+			}
+		}
+		res.NonTrivial = true
+		res.Classes = append(res.Classes, "long-"+c.Kind)
+		return
+	}, HangLimit: 120 * time.Second}, r.N(300, 3000))
 	depths := []int{1, 2, 8, 9, 16, 17, 18, 50, 100, 300}
 	if r.Thorough() {
 		depths = append(depths, 1000, 2000)
